@@ -11,14 +11,23 @@ mod verif_c16_copy_value_rec {
     fn fixed_random_state() -> std::hash::RandomState {
         unsafe { core::mem::transmute::<(u64, u64), std::hash::RandomState>((0u64, 0u64)) }
     }
-    //@defaults unit=U16.5 props=C16 tier=quick level=bounded bound="every ValueFormat (all 256 flag combinations), any record bytes" timeout=900
+    // contract models of the byte sink TableData::{write_bytes, add_offset} (append n bytes / append a `width`-byte
+    // placeholder and record the target object); the real Vec-backed functions are discharged in unit U04.0
+    static mut BYTES: usize = 0;
+    static mut NOFF: usize = 0;
+    static mut OBJ: [u64; 4] = [0; 4];
+    fn write_bytes_model(_t: &mut TableData, bytes: &[u8]) { unsafe { BYTES += bytes.len(); } }
+    fn add_offset_model(_t: &mut TableData, object: ObjectId, width: usize, _adjustment: u32) {
+        unsafe { if NOFF < 4 { OBJ[NOFF] = object.0; } NOFF += 1; BYTES += width; }
+    }
+    //@defaults unit=U16.5 props=C16 tier=quick level=bounded bound="all 16 device-flag combinations x metrics absent / all present (32 enumerated formats), any record bytes" timeout=900
     //@harness fns=copy_value_rec
     #[kani::proof]
     #[kani::unwind(34)]
     #[kani::stub(std::hash::RandomState::new, fixed_random_state)]
+    #[kani::stub(TableData::write_bytes, write_bytes_model)]
+    #[kani::stub(TableData::add_offset, add_offset_model)]
     fn copy_value_rec_keeps_layout() {
-        // every combination of the four device flags x metrics absent / all present (32 enumerated formats),
-        // record bytes symbolic (so every null / non-null pattern of the device offsets)
         let buf: [u8; 16] = kani::any();
         let mut combo: u16 = 0;
         let mut witnessed = false;
@@ -31,20 +40,22 @@ mod verif_c16_copy_value_rec {
             if !rec.y_placement_device.get().is_null() { n_dev += 1; }
             if !rec.x_advance_device.get().is_null() { n_dev += 1; }
             if !rec.y_advance_device.get().is_null() { n_dev += 1; }
-            let oid: [ObjectId; 4] = [ObjectId::next(), ObjectId::next(), ObjectId::next(), ObjectId::next()];
-            let devs: Vec<OffsetRecord> = vec![
-                OffsetRecord { pos: 0, len: crate::graph::OffsetLen::Offset16, object: oid[0], adjustment: 0 },
-                OffsetRecord { pos: 0, len: crate::graph::OffsetLen::Offset16, object: oid[1], adjustment: 0 },
-                OffsetRecord { pos: 0, len: crate::graph::OffsetLen::Offset16, object: oid[2], adjustment: 0 },
-                OffsetRecord { pos: 0, len: crate::graph::OffsetLen::Offset16, object: oid[3], adjustment: 0 },
+            let devs: [OffsetRecord; 4] = [
+                OffsetRecord { pos: 0, len: crate::graph::OffsetLen::Offset16, object: ObjectId(11), adjustment: 0 },
+                OffsetRecord { pos: 0, len: crate::graph::OffsetLen::Offset16, object: ObjectId(12), adjustment: 0 },
+                OffsetRecord { pos: 0, len: crate::graph::OffsetLen::Offset16, object: ObjectId(13), adjustment: 0 },
+                OffsetRecord { pos: 0, len: crate::graph::OffsetLen::Offset16, object: ObjectId(14), adjustment: 0 },
             ];
+            unsafe { BYTES = 0; NOFF = 0; }
             let mut target = TableData::default();
             let seen = copy_value_rec(&mut target, &rec, format, &devs);
-            assert!(seen == n_dev);
-            assert!(target.offsets.len() == n_dev);
+            let (bytes, noff, obj) = unsafe { (BYTES, NOFF, OBJ) };
+            assert!(seen == n_dev && noff == n_dev);
             // the copied record has exactly the layout the format prescribes
-            assert!(target.bytes.len() == format.record_byte_len());
-            if n_dev > 0 { assert!(target.offsets[0].object == oid[0]); }
+            assert!(bytes == format.record_byte_len());
+            // device offsets are re-attached in order
+            if n_dev > 0 { assert!(obj[0] == 11); }
+            if n_dev > 1 { assert!(obj[1] == 12); }
             if format.contains(ValueFormat::Y_PLACEMENT_DEVICE) && !format.contains(ValueFormat::X_PLACEMENT_DEVICE) && n_dev == 0 { witnessed = true; }
             combo += 1;
         }
